@@ -18,8 +18,10 @@ Labels (all observed by the harness):
   semAcq   `_handle`: `semaphore.acquire()` (max set)        accepted → admitted        Sem.acquire
   begin    `_handle`: `transport_factory(conn)`; serve()     admitted/accepted → serving
   op evs   the client completed its next operation and observed `evs` (must equal the model's)
-           — a non-empty observation needs the connection to be in `serving`
-  end      `_handle`: `transport.close()` after serve()      serving  → ended / released
+           — a non-empty observation needs the connection to be in `serving`; the transport failure a client sees when
+             its handler crashed (`Op.crash`) may be read after the handler has closed the transport (`ended`/`released`)
+  end      `_handle`: `transport.close()` after serve() — on EVERY exit of serve(): normal end of the connection, an
+           `Exception` (swallowed) or a BaseException escaping the handler (`Op.crash`)      serving  → ended / released
   semRel   `_handle`: `semaphore.release()` (max set)        ended    → released        Sem.release
 -/
 namespace VgiVerif.C41
@@ -41,6 +43,9 @@ inductive Op where
   | tick
   | send
   | close
+  | crash (obs : List Ev)   -- a call whose handler leaves `serve()` with a non-`Exception` BaseException: the connection
+                            -- is closed under the client, which observes `obs` (a transport failure); `_handle` still runs
+                            -- its `finally` (`end`, `semRel`)
 deriving Repr
 
 /-- one `next()` on a producer session: a single iteration of `Engine.Pipe.iterate` -/
@@ -69,6 +74,7 @@ def openObs (hdr : Option Nat) (initLogs : List Log) : List Ev × List Item :=
 ill-formed here, e.g. a tick without an open stream) -/
 def opStep : Option Sess → Op → Option (List Ev × Option Sess)
   | none, .unary logs out => some (Pipe.unaryObs logs out, none)
+  | none, .crash obs => some (obs, none)
   | none, .openP hdr il steps => some ((openObs hdr il).1, some (.prod (openObs hdr il).2 steps))
   | none, .openX hdr il steps => some ((openObs hdr il).1, some (.exch (openObs hdr il).2 steps))
   | some (.prod c st), .tick => some ((tickP c st).1, some (tickP c st).2)
@@ -109,6 +115,15 @@ inductive CL where
   | semRel
 deriving Repr, DecidableEq
 
+/-- the handler has at least begun to serve (it may already have closed the transport) -/
+def Phase.started : Phase → Bool
+  | .serving | .ended | .released => true
+  | _ => false
+
+def Op.isCrash : Op → Bool
+  | .crash _ => true
+  | _ => false
+
 /-- the phase `begin` starts from / `end` leads to (`capped` = `max_connections is not None`) -/
 def beginFrom (capped : Bool) : Phase := if capped then .admitted else .accepted
 def endTo (capped : Bool) : Phase := if capped then .ended else .released
@@ -126,7 +141,8 @@ def cstep (capped : Bool) (c : Conn) : CL → Option Conn
       match opStep c.sess o with
       | none => none
       | some (e, ss') =>
-        if e = evs ∧ (evs = [] ∨ c.phase = .serving) then some { c with script := r, sess := ss', obs := c.obs ++ [evs] }
+        if e = evs ∧ (evs = [] ∨ c.phase = .serving ∨ (o.isCrash = true ∧ c.phase.started = true)) then
+          some { c with script := r, sess := ss', obs := c.obs ++ [evs] }
         else none
   | .end_ => if c.phase = .serving then some { c with phase := endTo capped } else none
   | .semRel => if capped ∧ c.phase = .ended then some { c with phase := .released } else none
